@@ -14,6 +14,20 @@ permuted by perm, list-backed), "single": [R per request, requested alone throug
 R = {"raise": exception class, "after": rowcount afterwards}
   | {"hdr": [column names], "rows": [[ocell, ...], ...], "after": rowcount afterwards}
 ocell = cell | ["q", numerator, denominator]   (a decimal.Decimal, as the exact rational it denotes)
+
+Session case (objects with identity, used again after the frame changed):
+  {"op": "session",
+   "frames": [{"names": [...], "rows": [[cell, ...], ...], "lazy": bool, "build": "rows" | "dicts"}, ...],
+   "steps": [{"do": "append", "f": i, "row": [cell, ...]}            df_i.append(row)
+             {"do": "materialize", "f": i}                           df_i.rowcount
+             {"do": "group_by", "f": i, "keys": [...], "keyform": ..}  a new GroupBy object (numbered in creation order)
+             {"do": "aggregate", "g": j, "reqs": [[FUNC, col], ...], "via": "aggregate" | "wrapper"}   on the EXISTING object j
+             {"do": "groups", "g": j}]}
+Observation: {"steps": [one per step: {"ok": true} | {"raise": cls} | {"count": n} | {"hdr", "rows", "scribbled"}],
+              "final": [rowcount of every frame at the end],
+              "reread": [[step index, rows of the returned frame read again at the end], ...]}
+After every call the harness overwrites the list objects it passed (key list, request list) and appends a
+marker row to the returned DataFrame, so anything that kept a reference instead of a value shows up later.
 """
 import itertools
 from fractions import Fraction
@@ -33,7 +47,13 @@ LEVEL_TEXT = ("Machine-checked Coq theorems over an executable model of group_by
               "asked alone or with others; any permutation of the rows gives a permutation of the same output rows; lazily and eagerly "
               "backed frames give the same output. The model is tied to the code by running real DataFrames (list-, generator- and "
               "dict-built) and evaluating the model on the same inputs inside Coq, cell by cell, header and row order included; an "
-              "independent property oracle on the implementation supplies replayable failing inputs.")
+              "independent property oracle on the implementation supplies replayable failing inputs. Object level: a heap of frames and "
+              "GroupBy objects with a step function (append a row, materialise, take a GroupBy, aggregate / groups on an EXISTING GroupBy "
+              "that refers to its frame and carries _group_keys from call to call, emptied at the start of each pass); proved: at every "
+              "state of the heap aggregate and groups() on any GroupBy object are the partition-and-fold / the distinct keys of the rows "
+              "its frame holds at that moment, list- or generator-backed (nothing remembered from earlier calls, appended since or "
+              "already consumed changes it), and the object afterwards holds the bookkeeping of that pass only; such sessions are run "
+              "on live objects and compared with the model step by step.")
 LEVEL_NOTE = ("Trusted: Coq kernel + vm_compute; the hand-written model; the harness's canonicalisation of Python values (bool/int/integral "
               "float collapse to one integer so that structural equality of model cells is Python's ==; other floats by bit pattern; NaN never "
               "generated). AVG is the exact rational in the theorems; the implementation's decimal.Decimal (28 significant digits, half-even) "
@@ -41,21 +61,33 @@ LEVEL_NOTE = ("Trusted: Coq kernel + vm_compute; the hand-written model; the har
               "Value columns hold integers (any size) and nulls: float SUM/AVG depend on row order through IEEE addition and Decimal sums round, "
               "so they are outside the exact-arithmetic theorems; MIN/MAX/SUM/AVG over text/float columns are not modelled (only COUNT is "
               "requested on such columns). Labels are modelled as (function, column) pairs rendered to the text FUNC(column); a frame column "
-              "literally named like a label is not modelled. Ragged rows are not modelled. No axioms (Print Assumptions: closed).")
+              "literally named like a label is not modelled. Ragged rows are not modelled. No axioms (Print Assumptions: closed). "
+              "Sessions: mutation of a frame is append() and the consumption of its generator only (rows are immutable tuples, the schema does "
+              "not change); DataFrame.append refuses integers outside [-2^63, 2^64) (serialisation), so appended rows stay inside. Judged by the "
+              "Python oracle only (the model has values, not references): the key list / request list passed in are overwritten after the call, "
+              "a marker row is appended to every returned frame and all returned frames are read again at the end.")
 DESIGN_REF = "DESIGN.md section 8, C12"
 COQ_IMPORTS = "From Coq Require Import QArith.\nFrom Orso Require Import Model.C12."
-COQ_CHECKS = {"agg": "c12_check_agg", "groups": "c12_check_groups"}
-COQ_SHOW = {"agg": "c12_show_agg", "groups": "c12_show_groups"}
+COQ_CHECKS = {"agg": "c12_check_agg", "groups": "c12_check_groups", "session": "c12_check_session",
+              "session_b": "c12_check_session", "session_c": "c12_check_session"}   # one check, three files compiled in parallel
+COQ_SHOW = {"agg": "c12_show_agg", "groups": "c12_show_groups", "session": "c12_show_session",
+            "session_b": "c12_show_session", "session_c": "c12_show_session"}
 RULE = ("frames of 0..15 rows with 1-2 key columns drawn from small pools of text / integers (incl. -1 and -2, equal hashes) / floats "
         "(integral ones equal to ints, -0.0, inf) / booleans / nulls so that groups collide, two integer value columns with nulls anywhere "
         "and whole groups forced to null, 1..4 (function, column) requests with repeated columns and repeated requests, COUNT(*) and "
         "unknown columns, a small malformed share (unknown key column, SUM over an unknown column, duplicated key column); each case is run "
         "list-backed and generator-backed, on a shuffle of its rows, and request by request; non-trivial = well-formed with at least one "
-        "output group; distinct by canonical JSON of (rows, keys, requests, laziness)")
+        "output group; distinct by canonical JSON of (rows, keys, requests, laziness). Sessions: 1-2 frames (the second possibly with "
+        "its columns in another order, 22% generator-backed) and 4..10 steps drawn from: aggregate on an existing GroupBy object (45% the "
+        "same request as last time on that object, 30% the same columns under other functions, through aggregate() or the wrappers), "
+        "append a row (mostly to the frame of the object last used), a further GroupBy over the same or another frame, groups(), "
+        "materialise; plus every session group_by / aggregate / append one row / aggregate again / groups over a small alphabet")
 TRUSTED = [
     "C12 model (coq/Model/C12.v): dicts as insertion-ordered association lists; _map's generator as its two outputs (the yielded "
     "triples and the final _group_keys); labels as (function, column) pairs with a rendering function (proved injective)",
     "canonicalisation in tools/props/C12.py: bool/int/integral float -> integer, other floats by bits, text by code points, Decimal -> exact fraction",
+    "session model (coq/Model/C12.v, step/run): frames and GroupBy objects addressed by creation order; a GroupBy holds a reference to "
+    "its frame, its key columns and the _group_keys of its last pass; append on a generator-backed frame raises and changes nothing",
     "modelled, validated by the correspondence, not proved: decimal.Decimal division at 28 digits half-even (dec_round in Model/C12.v); "
     "CPython dict ordering/equality, min/max/sum, tuple.index behind the model's definitions",
 ]
@@ -185,7 +217,79 @@ def _wrapper(func, col):
     return None
 
 
+def _read(out):
+    return [[_json_cell(x) for x in r] for r in out]
+
+
+def _observe_session(case):
+    """Run the steps on live objects; the objects persist across steps (that is the point)."""
+    frames = []
+    for f in case["frames"]:
+        frames.append(_frame({"names": f["names"], "build": f.get("build", "rows")}, f["rows"], bool(f["lazy"])))
+    gbs = []
+    outs = []
+    obs = []
+    for i, st in enumerate(case["steps"]):
+        do = st["do"]
+        try:
+            if do == "append":
+                frames[st["f"]].append(tuple(_py(c) for c in st["row"]))
+                obs.append({"ok": True})
+            elif do == "materialize":
+                obs.append({"count": int(frames[st["f"]].rowcount)})
+            elif do == "group_by":
+                arg = _keys_arg(st)
+                gbs.append(frames[st["f"]].group_by(arg))
+                if isinstance(arg, list):
+                    arg[:] = ["#junk"]  # the caller's list is the caller's: overwrite it
+                obs.append({"ok": True})
+            else:
+                gb = gbs[st["g"]]
+                if do == "groups":
+                    out = gb.groups()
+                else:
+                    reqs = [tuple(r) for r in st["reqs"]]
+                    funcs = {f for f, _ in reqs}
+                    if st.get("via") == "wrapper" and reqs == [("COUNT", "*")]:
+                        out = gb.count()
+                    elif st.get("via") == "wrapper" and len(funcs) == 1 and funcs <= {"MIN", "MAX", "SUM", "AVG"}:
+                        cols = [c for _, c in reqs]
+                        out = getattr(gb, reqs[0][0].lower())(cols[0] if len(cols) == 1 else cols)
+                        if len(cols) > 1:
+                            cols[:] = ["#junk"]
+                    else:
+                        lst = list(reqs)
+                        out = gb.aggregate(lst)
+                        lst[:] = [("SUM", "#junk")]
+                res = {"hdr": [str(c) for c in out.column_names], "rows": _read(out), "scribbled": False}
+                if res["hdr"]:
+                    try:
+                        out.append(tuple(SCRIBBLE for _ in res["hdr"]))  # the returned frame is the caller's too
+                        res["scribbled"] = True
+                    except Exception:
+                        pass
+                outs.append((i, out))
+                obs.append(res)
+        except Exception as e:
+            obs.append({"raise": type(e).__name__})
+    reread = []
+    for i, out in outs:
+        try:
+            reread.append([i, _read(out)])
+        except Exception as e:
+            reread.append([i, "raise " + type(e).__name__])
+    final = []
+    for df in frames:
+        try:
+            final.append(int(df.rowcount))
+        except Exception:
+            final.append(-1)
+    return {"steps": obs, "final": final, "reread": reread}
+
+
 def observe(case):
+    if case["op"] == "session":
+        return _observe_session(case)
     _keys_arg_cur[0] = _keys_arg(case)
     rows = case["rows"]
     lazy = bool(case["lazy"])
@@ -308,30 +412,81 @@ def _table(case, res):
     return out, None
 
 
+def _group_rows(names, rows, keys):
+    kidx = [names.index(k) for k in keys]
+    groups = {}
+    for r in rows:
+        groups.setdefault(tuple(_canon(_py(r[i])) for i in kidx), []).append(r)
+    return groups
+
+
+def _may_raise_on(names, rows, reqs):
+    for f, c in reqs:
+        if f != "COUNT" and _reference(f, c, rows, names)[0] == "undefined":
+            return True
+    return False
+
+
+def _check_agg(names, rows, keys, res, tag, rs, undefined_ok):
+    """One aggregate result against the reference partition-and-fold of `rows` (the property, literally).
+    None = holds, "skip" = TypeError where the property defines no value, else what is required."""
+    case = {"keys": keys}
+    groups = _group_rows(names, rows, keys)
+    if "raise" in res:
+        if undefined_ok and res["raise"] == "TypeError":
+            return "skip"
+        return f"{tag}: aggregate raised {res['raise']}; it must return one row per distinct key"
+    if rows:
+        want_hdr = list(dict.fromkeys([label(f, c) for f, c in rs] + list(keys)))
+        if res["hdr"] != want_hdr:
+            return f"{tag}: output columns must be the labels FUNC(column) next to the key columns {want_hdr}, got {res['hdr']}"
+    tab, why = _table(case, res)
+    if why:
+        return f"{tag}: {why}"
+    if len(res["rows"]) != len(groups) or set(tab) != set(groups):
+        return (f"{tag}: one output row per distinct key required: distinct keys {sorted(map(str, groups))}, "
+                f"output keys {sorted(map(str, tab))} ({len(res['rows'])} rows)")
+    for kt, grp in groups.items():
+        for f, c in rs:
+            ref = _reference(f, c, grp, names)
+            if ref[0] == "undefined":
+                continue
+            got = tab[kt].get(label(f, c))
+            if got is None or not _cell_equal(ref[1], got):
+                return f"{tag}: {label(f, c)} of group {kt} must be {ref[1]}, got {got}"
+    return None
+
+
+def _check_groups(names, rows, keys, res, tag):
+    groups = _group_rows(names, rows, keys)
+    if "raise" in res:
+        return f"groups() ({tag}) raised {res['raise']}; it must return one row per distinct key"
+    tab, why = _table({"keys": keys}, res)
+    if why:
+        return f"groups() ({tag}): {why}"
+    if set(tab) != set(groups):
+        return f"groups() ({tag}) must return exactly the distinct keys {sorted(map(str, groups))}, got {sorted(map(str, tab))}"
+    if len(res["rows"]) != len(groups):
+        return f"groups() ({tag}) must return one row per distinct key"
+    return None
+
+
 def oracle(case, obs):
+    if case["op"] == "session":
+        return _walk(case, obs)[0]
     if not _wellformed(case):
         return None  # unknown key column: the property does not say what happens
     names = case["names"]
     rows = case["rows"]
     keys = case["keys"]
-    kidx = [names.index(k) for k in keys]
     main = obs["main"]
-    groups = {}
-    for r in rows:
-        groups.setdefault(tuple(_canon(_py(r[i])) for i in kidx), []).append(r)
+    groups = _group_rows(names, rows, keys)
 
     if case["op"] == "groups":
         for tag in ("main", "other", "shuffled"):
-            res = obs[tag]
-            if "raise" in res:
-                return f"groups() ({tag}) raised {res['raise']}; it must return one row per distinct key"
-            tab, why = _table(case, res)
-            if why:
-                return f"groups() ({tag}): {why}"
-            if set(tab) != set(groups):
-                return f"groups() ({tag}) must return exactly the distinct keys {sorted(map(str, groups))}, got {sorted(map(str, tab))}"
-            if len(res["rows"]) != len(groups):
-                return f"groups() ({tag}) must return one row per distinct key"
+            w = _check_groups(names, rows, keys, obs[tag], tag)
+            if w:
+                return w
         if obs["other"]["rows"] != main["rows"] or obs["other"]["hdr"] != main["hdr"]:
             return "lazily backed and materialised frames must give the same groups"
         return None
@@ -340,29 +495,7 @@ def oracle(case, obs):
     undefined_ok = _may_raise(case)
 
     def check(res, tag, rs):
-        if "raise" in res:
-            if undefined_ok and res["raise"] == "TypeError":
-                return "skip"
-            return f"{tag}: aggregate raised {res['raise']}; it must return one row per distinct key"
-        if rows:
-            want_hdr = list(dict.fromkeys([label(f, c) for f, c in rs] + list(keys)))
-            if res["hdr"] != want_hdr:
-                return f"{tag}: output columns must be the labels FUNC(column) next to the key columns {want_hdr}, got {res['hdr']}"
-        tab, why = _table(case, res)
-        if why:
-            return f"{tag}: {why}"
-        if len(res["rows"]) != len(groups) or set(tab) != set(groups):
-            return (f"{tag}: one output row per distinct key required: distinct keys {sorted(map(str, groups))}, "
-                    f"output keys {sorted(map(str, tab))} ({len(res['rows'])} rows)")
-        for kt, grp in groups.items():
-            for f, c in rs:
-                ref = _reference(f, c, grp, names)
-                if ref[0] == "undefined":
-                    continue
-                got = tab[kt].get(label(f, c))
-                if got is None or not _cell_equal(ref[1], got):
-                    return f"{tag}: {label(f, c)} of group {kt} must be {ref[1]}, got {got}"
-        return None
+        return _check_agg(names, rows, keys, res, tag, rs, undefined_ok)
 
     w = check(main, "aggregate", reqs)
     if w == "skip":
@@ -397,6 +530,98 @@ def oracle(case, obs):
             if "raise" in wr or wr["hdr"] != res["hdr"] or _rows_canon(wr) != _rows_canon(res):
                 return f"the convenience wrapper for {label(f, c)} must equal aggregate([...]): {wr} vs {res}"
     return None
+
+
+# ----------------------------------------------------------------------------- sessions: the property on objects that are used again
+SCRIBBLE = "#scribble"
+
+
+def _walk(case, obs):
+    """The property read on a session: every aggregate / groups answer of a GroupBy object must be the reference
+    partition-and-fold of the rows its frame holds WHEN THE CALL IS MADE, whatever the object or the frame went
+    through before.  The walker keeps, independently of the Coq model, what each frame holds: rows are added by
+    append, a generator-backed frame gives its rows to the first scan and holds none afterwards.
+    Returns (violation or None, set of labels)."""
+    labels = set()
+    frames = [{"names": list(f["names"]), "rows": [list(r) for r in f["rows"]], "lazy": bool(f["lazy"]), "unknown": False}
+              for f in case["frames"]]
+    gbs = []
+    returned = {}
+    for i, (st, ob) in enumerate(zip(case["steps"], obs["steps"])):
+        do = st["do"]
+        if do == "append":
+            fr = frames[st["f"]]
+            if fr["lazy"]:
+                labels.add("session:append-to-generator-backed")
+                if "raise" not in ob:
+                    fr["unknown"] = True
+                continue  # nothing is required of append on a generator-backed frame
+            if "raise" in ob:
+                return f"step {i}: append to a materialised frame raised {ob['raise']}", labels
+            fr["rows"].append(list(st["row"]))
+        elif do == "materialize":
+            fr = frames[st["f"]]
+            fr["lazy"] = False
+            if not fr["unknown"] and ob.get("count") != len(fr["rows"]):
+                return f"step {i}: the frame holds {len(fr['rows'])} rows, rowcount says {ob.get('count', ob)}", labels
+        elif do == "group_by":
+            if "raise" in ob:
+                return f"step {i}: group_by raised {ob['raise']}", labels
+            gbs.append({"f": st["f"], "keys": list(st["keys"]), "seen": set(), "used": 0, "frame_len_at_use": None})
+        else:
+            gb = gbs[st["g"]]
+            fr = frames[gb["f"]]
+            names, keys, rows = fr["names"], gb["keys"], fr["rows"]
+            well = len(keys) >= 1 and all(k in names for k in keys)
+            if gb["used"]:
+                labels.add("session:groupby-object-reused")
+                if gb["frame_len_at_use"] != len(rows) and not fr["lazy"]:
+                    labels.add("session:reused-after-append")
+            if fr["unknown"]:
+                continue
+            if not well:
+                if fr["lazy"]:
+                    fr["unknown"] = True
+                continue  # unknown key column: the property does not say what happens
+            cur = set(_group_rows(names, rows, keys))
+            if do == "groups":
+                if not gb["seen"] <= cur:
+                    labels.add("session:groups-after-keys-left-the-frame(F-C12-5 class)")
+                w = _check_groups(names, rows, keys, ob, f"step {i}, GroupBy #{st['g']}")
+                if w:
+                    return w + f" - the frame holds {rows} at this point", labels
+            else:
+                reqs = [tuple(r) for r in st["reqs"]]
+                undefined_ok = _may_raise_on(names, rows, reqs)
+                w = _check_agg(names, rows, keys, ob, f"step {i}, GroupBy #{st['g']}", reqs, undefined_ok)
+                if w == "skip":
+                    if fr["lazy"]:
+                        fr["unknown"] = True
+                    gb["used"] += 1
+                    continue
+                if w:
+                    return w + f" - the frame holds {rows} at this point", labels
+            if "hdr" in ob:
+                returned[i] = ob
+            gb["seen"] |= cur
+            gb["used"] += 1
+            if fr["lazy"]:
+                labels.add("session:generator-backed-scan")
+                fr["rows"] = []  # the generator has given its rows
+            gb["frame_len_at_use"] = len(fr["rows"])
+    # the frames handed back are values: nothing done later may have changed them
+    for i, rows_again in obs.get("reread", []):
+        ob = returned.get(i)
+        if ob is None:
+            continue
+        want = ob["rows"] + ([[SCRIBBLE] * len(ob["hdr"])] if ob.get("scribbled") else [])
+        if rows_again != want:
+            return (f"step {i}: the frame returned then reads differently at the end of the session: {rows_again} "
+                    f"instead of {want}"), labels
+    for fr, n in zip(frames, obs.get("final", [])):
+        if not fr["unknown"] and n != len(fr["rows"]):
+            return f"at the end a frame holds {len(fr['rows'])} rows but rowcount says {n}", labels
+    return None, labels
 
 
 def _rows_canon(res):
@@ -458,7 +683,86 @@ def _modelled(case):
     return True
 
 
+def _session_modelled(case):
+    for fi, f in enumerate(case["frames"]):
+        allrows = list(f["rows"]) + [st["row"] for st in case["steps"] if st["do"] == "append" and st["f"] == fi]
+        reqs = []
+        g = 0
+        owner = []
+        for st in case["steps"]:
+            if st["do"] == "group_by":
+                owner.append(st["f"])
+            elif st["do"] == "aggregate" and owner[st["g"]] == fi:
+                reqs += st["reqs"]
+        if not _modelled({"names": f["names"], "rows": allrows, "reqs": reqs}):
+            return False
+    return True
+
+
+_NAME_CONST = {"k1": "n_k1", "k2": "n_k2", "v": "n_v", "w": "n_w", "*": "n_star", "zz": "n_zz", "nope": "n_nope"}
+
+
+def _check_name_constants():
+    import os
+    import re
+    src = open(os.path.join(os.path.dirname(os.path.abspath(__file__)), "..", "..", "coq", "Model", "C12.v")).read()
+    for text, const in _NAME_CONST.items():
+        body = "[" + "; ".join(str(ord(ch)) for ch in text) + "]%N"
+        if not re.search(r"Definition %s : name := %s\." % (re.escape(const), re.escape(body)), src):
+            raise RuntimeError("Model/C12.v: constant %s is not the literal of %r" % (const, text))
+
+
+_check_name_constants()
+
+
+def _nm(n):
+    return _NAME_CONST.get(n) or L.text(n)
+
+
+_SOBS_EXN = {"AttributeError": "SAttrError"}
+
+
+_session_count = [0]
+
+
+def _session_to_coq(case, obs):
+    if not _session_modelled(case):
+        return None
+    frs = L.lst("(%s, %s, %s)" % (L.boolean(bool(f["lazy"])), L.lst(_nm(n) for n in f["names"]),
+                                  L.lst(L.lst(_coq_val(c) for c in r) for r in f["rows"])) for f in case["frames"])
+    ops, sobs = [], []
+    gkeys = []
+    for st, ob in zip(case["steps"], obs["steps"]):
+        do = st["do"]
+        if do == "append":
+            ops.append("(oapp %s %s)" % (L.nat(st["f"]), L.lst(_coq_val(c) for c in st["row"])))
+            sobs.append("SUnit" if "ok" in ob else _SOBS_EXN.get(ob.get("raise"), "SOtherError"))
+        elif do == "materialize":
+            ops.append("(omat %s)" % L.nat(st["f"]))
+            sobs.append("(SCount %s)" % L.Z(ob["count"]) if "count" in ob else "SOtherError")
+        elif do == "group_by":
+            ops.append("(ogb %s %s)" % (L.nat(st["f"]), L.lst(_nm(k) for k in st["keys"])))
+            gkeys.append(list(st["keys"]))
+            sobs.append("SUnit" if "ok" in ob else "SOtherError")
+        else:
+            if do == "groups":
+                ops.append("(ogrp %s)" % L.nat(st["g"]))
+            else:
+                ops.append("(oagg %s %s)" % (L.nat(st["g"]), L.lst("(%s, %s)" % (f, _nm(c)) for f, c in st["reqs"])))
+            if "raise" in ob:
+                sobs.append("(SRaise %s)" % _EXN.get(ob["raise"], "OOther"))
+            else:
+                keyset = set(gkeys[st["g"]])
+                rows = [L.lst(_coq_ocell(c, star=(h not in keyset)) for h, c in zip(ob["hdr"], r)) for r in ob["rows"]]
+                sobs.append("(SFrame %s %s)" % (L.lst(_nm(h) for h in ob["hdr"]), L.lst(rows)))
+    final = L.lst(L.Z(n) for n in obs["final"])
+    _session_count[0] += 1
+    return (("session", "session_b", "session_c")[_session_count[0] % 3], "((%s, %s, %s, %s) : session_case)" % (frs, L.lst(ops), L.lst(sobs), final))
+
+
 def to_coq(case, obs):
+    if case["op"] == "session":
+        return _session_to_coq(case, obs)
     if not _modelled(case):
         return None
     names = L.lst(L.text(n) for n in case["names"])
@@ -477,6 +781,10 @@ def known(case, obs):
 
 
 def nontrivial_key(case, obs):
+    if case["op"] == "session":
+        if not any(ob.get("rows") for ob in obs["steps"]):
+            return None
+        return repr(("session", case["frames"], case["steps"]))
     if not _wellformed(case) or "raise" in obs["main"] or not obs["main"]["rows"]:
         return None
     return repr((case["op"], case["rows"], case["keys"], case["reqs"], case["lazy"]))
@@ -484,6 +792,24 @@ def nontrivial_key(case, obs):
 
 def classify(case, obs):
     yield case["op"]
+    if case["op"] == "session":
+        yield "session:steps=%s" % (len(case["steps"]) if len(case["steps"]) < 8 else "8+")
+        yield "session:frames=%d" % len(case["frames"])
+        if any(f["lazy"] for f in case["frames"]):
+            yield "session:generator-backed-frame"
+        if sum(1 for st in case["steps"] if st["do"] == "group_by") > 1:
+            yield "session:several-groupby-objects"
+        last = {}
+        for st in case["steps"]:
+            if st["do"] == "aggregate":
+                cols = tuple(dict.fromkeys(c for _, c in st["reqs"]))
+                if last.get(st["g"]) == cols:
+                    yield "session:same-columns-again-on-same-object"
+                    break
+                last[st["g"]] = cols
+        for lab in sorted(_walk(case, obs)[1]):
+            yield lab
+        return
     yield "lazy" if case["lazy"] else "eager"
     n = len(case["rows"])
     yield "rows=0" if n == 0 else "rows=1" if n == 1 else "rows=2-5" if n <= 5 else "rows=6-15" if n <= 15 else "rows>15"
@@ -584,6 +910,76 @@ def corpus():
     yield _case([["a", "x", 1, 2], ["b", "y", 1, 2]], ["nope"], [["SUM", "v"]], lazy=True)
     yield _case([["a", "x", 1, 2], ["b", "y", 1, 2], ["a", "x", 1, 2]], ["k1", "k1"], [["COUNT", "*"], ["COUNT", "*"]])
     yield _case([["a", "x", 1, 2], ["b", "y", 1, 2], ["a", "z", 1, 2]], ["k1", "k2"], [], op="groups", lazy=True)
+    yield from session_corpus()
+
+
+def _session(frames, steps):
+    frs = []
+    for f in frames:
+        f = dict(f)
+        f.setdefault("names", list(NAMES))
+        f.setdefault("lazy", False)
+        f.setdefault("build", "rows")
+        frs.append(f)
+    return {"op": "session", "frames": frs, "steps": steps}
+
+
+def _gb(f, keys, keyform="list"):
+    return {"do": "group_by", "f": f, "keys": list(keys), "keyform": keyform}
+
+
+def _agg(g, reqs, via="aggregate"):
+    return {"do": "aggregate", "g": g, "reqs": [list(r) for r in reqs], "via": via}
+
+
+def _app(f, row):
+    return {"do": "append", "f": f, "row": list(row)}
+
+
+def _grp(g):
+    return {"do": "groups", "g": g}
+
+
+def _mat(f):
+    return {"do": "materialize", "f": f}
+
+
+def session_corpus():
+    base = [["a", None, 1, 10], ["b", None, 2, None], ["a", None, None, 30], ["b", None, 4, 40]]
+    later = [["a", None, 100, 1], ["c", None, 7, None], ["b", None, None, 5]]
+    # one GroupBy object, the same request before and after rows were appended (a new group among them)
+    for reqs in ([["SUM", "v"]], [["COUNT", "*"]], [["MIN", "v"], ["MAX", "w"], ["COUNT", "w"]], [["AVG", "v"], ["SUM", "v"]]):
+        yield _session([{"rows": base}], [_gb(0, ["k1"]), _agg(0, reqs)] + [_app(0, r) for r in later] + [_agg(0, reqs), _grp(0)])
+    # min() then max() of the same column through the wrappers, count() twice
+    yield _session([{"rows": base}], [_gb(0, ["k1"], "str"), _agg(0, [["MIN", "v"]], "wrapper"), _app(0, later[0]),
+                                       _agg(0, [["MAX", "v"]], "wrapper"), _app(0, later[1]), _agg(0, [["MIN", "v"]], "wrapper")])
+    yield _session([{"rows": base[:1]}], [_gb(0, ["k1"]), _agg(0, [["COUNT", "*"]], "wrapper"), _app(0, base[1]),
+                                           _agg(0, [["COUNT", "*"]], "wrapper"), _app(0, base[2]), _agg(0, [["COUNT", "*"]], "wrapper")])
+    # an empty frame that fills up under a GroupBy taken while it was empty
+    yield _session([{"rows": []}], [_gb(0, ["k1"]), _agg(0, [["SUM", "v"]]), _grp(0), _app(0, base[0]), _agg(0, [["SUM", "v"]]),
+                                     _app(0, base[2]), _agg(0, [["SUM", "v"], ["COUNT", "v"]]), _grp(0)])
+    # two GroupBy objects over one frame (same and different key columns), interleaved
+    yield _session([{"rows": [[-1, "x", 1, None], [-2, "y", 2, 5]]}],
+                   [_gb(0, ["k1"]), _gb(0, ["k2", "k1"], "tuple"), _gb(0, ["k1"]), _agg(0, [["SUM", "v"]]), _agg(1, [["SUM", "v"]]),
+                    _app(0, [-1, "y", 4, 6]), _agg(2, [["SUM", "v"]]), _agg(1, [["SUM", "v"]]), _agg(0, [["SUM", "v"]]), _grp(1), _grp(2)])
+    # two frames with the same columns (the second in another column order), the same requests on both
+    yield _session([{"rows": base[:2]}, {"names": ["v", "k1", "w", "k2"], "rows": [[5, "a", None, None], [6, "z", 1, None]]}],
+                   [_gb(0, ["k1"]), _gb(1, ["k1"]), _agg(0, [["SUM", "v"], ["COUNT", "*"]]), _agg(1, [["SUM", "v"], ["COUNT", "*"]]),
+                    _app(1, [7, "a", 2, None]), _app(0, ["z", None, 8, None]), _agg(1, [["SUM", "v"], ["COUNT", "*"]]),
+                    _agg(0, [["SUM", "v"], ["COUNT", "*"]])])
+    # a generator-backed frame: the first scan takes the rows; then it is materialised (empty), appended to, aggregated again
+    yield _session([{"rows": base, "lazy": True}], [_gb(0, ["k1"]), _agg(0, [["SUM", "v"]]), _agg(0, [["SUM", "v"]]), _app(0, later[0]),
+                                                    _mat(0), _app(0, later[1]), _agg(0, [["SUM", "v"]]), _agg(0, [["COUNT", "*"]], "wrapper")])
+    yield _session([{"rows": base, "lazy": True}], [_gb(0, ["k1"]), _gb(0, ["k1"]), _mat(0), _agg(0, [["MAX", "w"]]), _app(0, later[2]),
+                                                    _agg(1, [["MAX", "w"]]), _agg(0, [["MAX", "w"]])])
+    # F-C12-5 (fixed, 5771d3f): groups() of a GroupBy object that had scanned a generator-backed frame listed the
+    # keys of the rows the generator had given up (a, b) next to the key of the row the frame holds (c)
+    yield _session([{"rows": [["a", None, 1, None], ["b", None, 2, None]], "lazy": True}],
+                   [_gb(0, ["k1"]), _agg(0, [["COUNT", "*"]]), _mat(0), _app(0, ["c", None, 5, None]), _grp(0)])
+    yield _session([{"rows": [["a", None, 1, None], ["b", None, 2, None]], "lazy": True}],
+                   [_gb(0, ["k1"]), _agg(0, [["COUNT", "*"]]), _grp(0), _agg(0, [["COUNT", "*"]]), _grp(0)])
+    yield _session([{"rows": [["a", None, 1, None]], "lazy": True}],
+                   [_gb(0, ["k1"], "str"), _grp(0), _mat(0), _app(0, ["b", None, None, None]), _agg(0, [["SUM", "v"]], "wrapper"), _grp(0)])
 
 
 KEY_POOLS = {
@@ -669,6 +1065,129 @@ def _random_case(rng, malformed_share=0.08):
     return _case(rows, keys, reqs, lazy=lazy, op=op, keyform=keyform, build=build, perm=perm)
 
 
+def _random_reqs(rng, intlike, like=None):
+    """a request list; with `like`, the same columns in the same order under other functions"""
+    cols = ["v", "v", "w", "*", "zz", "k1", "k2"]
+
+    def fix(f, c):
+        if c in ("*", "zz") and f not in ("COUNT", "MIN", "MAX"):
+            f = rng.choice(["COUNT", "COUNT", "MIN", "MAX"])
+        if c in ("k1", "k2") and not intlike[c]:
+            f = "COUNT"
+        return [f, c]
+
+    if like is not None:
+        return [fix(rng.choice(FUNCS), c) for _, c in like]
+    base = [(rng.choice(FUNCS), rng.choice(cols)) for _ in range(rng.randint(1, 2))]
+    reqs = []
+    for _ in range(rng.choice([1, 1, 1, 2, 2, 3])):
+        f, c = rng.choice(base) if rng.random() < 0.5 else (rng.choice(FUNCS), rng.choice(cols))
+        reqs.append(fix(f, c))
+    return reqs
+
+
+def _appendable(c):
+    """DataFrame.append serialises the row (ormsgpack): integers outside [-2^63, 2^64) are refused there, which is
+    not C12's business - appended rows carry integers inside that range (initial rows keep the big ones)."""
+    if isinstance(c, int) and not isinstance(c, bool) and not (-(2 ** 63) <= c < 2 ** 64):
+        return (c % (2 ** 61)) + 2 ** 62
+    return c
+
+
+_HUGE = ["f", (1e300).hex()]   # an integral float: a 301-digit integer once canonicalised, ~0.2 s of Coq numeral parsing each
+
+
+def _random_session(rng):
+    # (sessions repeat every key in every result, so the 301-digit key stays with the single-call cases)
+    p1, p2 = ([(["f", (0.25).hex()] if x == _HUGE else x) for x in p] for p in (_key_pool(rng), _key_pool(rng)))
+    vp, wp = rng.choice(VALUE_POOLS), rng.choice(VALUE_POOLS)
+    pnull_v = rng.choice([0.0, 0.2, 0.5])
+    pnull_w = rng.choice([0.0, 0.3, 1.0])
+
+    def row():
+        return [rng.choice(p1), rng.choice(p2), None if rng.random() < pnull_v else rng.choice(vp),
+                None if rng.random() < pnull_w else rng.choice(wp)]
+
+    nfr = 1 if rng.random() < 0.75 else 2
+    frames = []
+    for i in range(nfr):
+        names = list(NAMES)
+        if i == 1 and rng.random() < 0.5:
+            rng.shuffle(names)
+        rows = [row() for _ in range(rng.choice([0, 1, 2, 2, 3, 4, 6]))]
+        order = [NAMES.index(n) for n in names]
+        frames.append({"names": names, "rows": [[r[j] for j in order] for r in rows], "lazy": rng.random() < 0.22,
+                       "build": "dicts" if rng.random() < 0.2 else "rows", "_order": order})
+    # key columns hold anything, so only COUNT is asked of them unless every pool value is an integer
+    intlike = {"k1": all(isinstance(x, int) for x in p1), "k2": all(isinstance(x, int) for x in p2)}
+
+    def keys():
+        r = rng.random()
+        if r < 0.6:
+            return ["k1"]
+        if r < 0.8:
+            return rng.choice([["k1", "k2"], ["k2", "k1"]])
+        if r < 0.95:
+            return [rng.choice(["k2", "v"])]
+        return rng.choice([["nope"], ["k1", "nope"]])
+
+    steps = [_gb(0, keys(), rng.choice(["list", "list", "tuple", "str"]))]
+    gbs = [0]          # frame of each GroupBy object
+    lastreq = {}
+    cur = 0
+    for _ in range(rng.randint(3, 9)):
+        r = rng.random()
+        if r < 0.42:
+            g = cur if rng.random() < 0.7 else rng.randrange(len(gbs))
+            q = rng.random()
+            if g in lastreq and q < 0.45:
+                reqs = [list(x) for x in lastreq[g]]
+            elif g in lastreq and q < 0.75:
+                reqs = _random_reqs(rng, intlike, like=lastreq[g])
+            else:
+                reqs = _random_reqs(rng, intlike)
+            lastreq[g] = reqs
+            cur = g
+            steps.append(_agg(g, reqs, "wrapper" if rng.random() < 0.3 else "aggregate"))
+        elif r < 0.70:
+            f = gbs[cur] if rng.random() < 0.8 else rng.randrange(nfr)
+            rw = [_appendable(c) for c in row()]
+            steps.append(_app(f, [rw[j] for j in frames[f]["_order"]]))
+        elif r < 0.80:
+            f = gbs[cur] if rng.random() < 0.6 else rng.randrange(nfr)
+            k = keys()
+            if rng.random() < 0.5:
+                k = list(steps[0]["keys"])
+            steps.append(_gb(f, k, rng.choice(["list", "tuple", "str"])))
+            gbs.append(f)
+            if rng.random() < 0.5:
+                cur = len(gbs) - 1
+        elif r < 0.90:
+            steps.append(_grp(cur if rng.random() < 0.7 else rng.randrange(len(gbs))))
+        else:
+            steps.append(_mat(rng.randrange(nfr)))
+    for f in frames:
+        del f["_order"]
+    return {"op": "session", "frames": frames, "steps": steps}
+
+
+def _exhaustive_sessions(tier):
+    """one GroupBy object asked twice with one row appended in between, every small frame and every row"""
+    kvals = [-1, -2]
+    vvals = [None, 1]
+    maxrows = 1 if tier == "quick" else 2
+    pairs = [([["SUM", "v"]], [["SUM", "v"]]), ([["MIN", "v"]], [["MAX", "v"]]), ([["COUNT", "*"]], [["COUNT", "*"]]),
+             ([["SUM", "v"], ["COUNT", "v"]], [["AVG", "v"], ["COUNT", "v"]])]
+    cells = list(itertools.product(kvals, vvals))
+    for n in range(0, maxrows + 1):
+        for rows in itertools.product(cells, repeat=n):
+            for new in cells:
+                for i, (r1, r2) in enumerate(pairs):
+                    yield _session([{"rows": [[k, None, v, None] for k, v in rows]}],
+                                   [_gb(0, ["k1"]), _agg(0, r1, "wrapper" if i % 2 else "aggregate"), _app(0, [new[0], None, new[1], None]),
+                                    _agg(0, r2, "wrapper" if i % 2 else "aggregate"), _grp(0)])
+
+
 def exhaustive(tier):
     """every frame of up to 3 rows over a tiny alphabet, one key column, every pair of requests over v"""
     kvals = [-1, -2, None]
@@ -683,23 +1202,75 @@ def exhaustive(tier):
                     rows = [[k, None, v, None] for k, v in zip(ks, vs)]
                     for i, rq in enumerate(reqsets):
                         yield _case(rows, ["k1"], rq, lazy=bool((n + i) % 2))
+        yield from _exhaustive_sessions(tier)
 
+    srows = 1 if tier == "quick" else 2
     return it(), (f"all frames of 0..{maxrows} rows with key in {{-1, -2, null}} and value in {{null, 1, 2}}, "
-                  "requests [SUM(v), COUNT(v)] and [AVG(v), MIN(v), MAX(v), COUNT(*)]")
+                  "requests [SUM(v), COUNT(v)] and [AVG(v), MIN(v), MAX(v), COUNT(*)]; all sessions "
+                  f"group_by / aggregate / append one row / aggregate on the same object / groups over frames of 0..{srows} rows "
+                  "with key in {-1, -2}, value in {null, 1}, any such row appended, four request pairs over the same columns")
 
 
 def generate(rng, tier):
     count = 700 if tier == "quick" else 14000
     for _ in range(count):
         yield _random_case(rng)
+    for _ in range(260 if tier == "quick" else 5200):
+        yield _random_session(rng)
 
 
 def search(rng):
     while True:
         yield _random_case(rng, malformed_share=0.0)
+        yield _random_session(rng)
+
+
+def _shrink_session(case):
+    frames, steps = case["frames"], case["steps"]
+    # drop one step (a group_by goes with everything that uses its object; later objects are renumbered)
+    for i, st in enumerate(steps):
+        if st["do"] == "group_by":
+            g = sum(1 for x in steps[:i] if x["do"] == "group_by")
+            ns = []
+            for j, x in enumerate(steps):
+                if j == i or (x["do"] in ("aggregate", "groups") and x["g"] == g):
+                    continue
+                if x["do"] in ("aggregate", "groups") and x["g"] > g:
+                    x = dict(x, g=x["g"] - 1)
+                ns.append(x)
+            if any(x["do"] in ("aggregate", "groups") for x in ns):
+                yield dict(case, steps=ns)
+        else:
+            yield dict(case, steps=steps[:i] + steps[i + 1:])
+    # drop the last frame if nothing refers to it
+    if len(frames) > 1 and not any(st.get("f") == len(frames) - 1 for st in steps):
+        yield dict(case, frames=frames[:-1])
+    for fi, f in enumerate(frames):
+        for i in range(len(f["rows"])):
+            nf = dict(f, rows=f["rows"][:i] + f["rows"][i + 1:])
+            yield dict(case, frames=frames[:fi] + [nf] + frames[fi + 1:])
+        if f["lazy"]:
+            yield dict(case, frames=frames[:fi] + [dict(f, lazy=False)] + frames[fi + 1:])
+        if f.get("build") == "dicts":
+            yield dict(case, frames=frames[:fi] + [dict(f, build="rows")] + frames[fi + 1:])
+    for i, st in enumerate(steps):
+        if st["do"] == "aggregate":
+            if len(st["reqs"]) > 1:
+                for j in range(len(st["reqs"])):
+                    yield dict(case, steps=steps[:i] + [dict(st, reqs=st["reqs"][:j] + st["reqs"][j + 1:])] + steps[i + 1:])
+            if st.get("via") == "wrapper":
+                yield dict(case, steps=steps[:i] + [dict(st, via="aggregate")] + steps[i + 1:])
+        if st["do"] == "group_by":
+            if len(st["keys"]) > 1:
+                yield dict(case, steps=steps[:i] + [dict(st, keys=st["keys"][:1])] + steps[i + 1:])
+            if st.get("keyform") != "list":
+                yield dict(case, steps=steps[:i] + [dict(st, keyform="list")] + steps[i + 1:])
 
 
 def shrink(case):
+    if case["op"] == "session":
+        yield from _shrink_session(case)
+        return
     rows = case["rows"]
     for i in range(len(rows)):
         nr = rows[:i] + rows[i + 1:]
